@@ -21,7 +21,7 @@ def xmrPubOfPriv (k : Bytes) : R Bytes :=
   if !privValid .ed25519Monero k then throw .key
   else match pubOfPriv .ed25519Monero k with
     | some p => pure p
-    | none => throw .thirdParty      -- libsodium refuses the identity point (scalar 0)
+    | none => throw .value           -- libsodium refuses the identity point (scalar 0): plain ValueError
 
 def xmrFromSpend (spend : Bytes) : R XmrWallet := do
   if !privValid .ed25519Monero spend then throw .key
@@ -58,13 +58,13 @@ def xmrSubaddrKeys (w : XmrWallet) (minor major : Nat) : R (Bytes × Bytes) := d
     let m := keccak256 ("SubAddr".toUTF8.toList ++ [0] ++ w.privView ++ Bytes.ofNatLE 4 major ++ Bytes.ofNatLE 4 minor)
     let mInt := Bytes.toNatLE (scReduce m)
     match edDecodeLenient w.pubSpend with
-    | none => throw .thirdParty
+    | none => throw .value
     | some b =>
-      if mInt = 0 then throw .thirdParty
+      if mInt = 0 then throw .value
       let d := edAdd b (edMulBase mInt)
       let a := Bytes.toNatLE w.privView % 2 ^ 255
       let c := edMul a d
-      if c = edIdentity then throw .thirdParty
+      if c = edIdentity then throw .value
       pure (edEncode d, edEncode c)
 
 def xmrPrimaryAddress (w : XmrWallet) (netVer : Bytes) : R (List Char) :=
